@@ -22,14 +22,15 @@ PROP = "C20"
 RUN_TIMEOUT = 180
 RAND_SEEDS = [11, 22]
 TIERS = {
-    "quick": {"runs": 1100, "budget_s": 85, "selftest_seeds": 8},
+    "quick": {"runs": 2200, "budget_s": 85, "selftest_seeds": 8},
     "thorough": {"runs": 60000, "budget_s": 800, "selftest_seeds": 48, "selftest_cross": True, "cold_check": True},
 }
 RULE = ("one run = seeded history of 4-12 op templates (public pyrepseq calls with literal arguments taken from a shared "
         "heap of caller-owned objects), swarm per run: enabled groups, co-scheduling of templates that share a function "
         "group, forced polluter->victim pairs, <= 2-6 faults (callback_raise, fork_fail, io_error, async_interrupt; natural "
         "raises are ordinary templates), seeded pool schedule; two runs in five are interrupt-sweep runs (three templates in a fixed rotation "
-        "through the catalogue, each interrupted at a seeded position and followed by a victim of its group). distinct = hash of the sequence of (template, rng seed, "
+        "through the catalogue, each interrupted at a seeded position and followed by a victim of its group), one in five is a caller-mutation "
+        "sweep run (template T, the caller changes one of the objects T reads, T again; (object, template) pairs in rotation). distinct = hash of the sequence of (template, rng seed, "
         "fault kind, fired, fault position class). non-trivial = at least 2 calls executed.")
 SIMULATED_TIME_NOTE = "no simulated clock (code reads none); logical time = op index; async interrupts are placed on pyrepseq line events"
 COMPONENTS = {
@@ -60,13 +61,37 @@ def op_key(op):
     return op["op"] if op.get("rng_seed") is None else "%s#%d" % (op["op"], op["rng_seed"])
 
 
+def table_key(op, mutated, table):
+    """Key of the pristine outcome to compare with: the template itself, or its 'after the caller changed X' variant.
+    Which heap objects a template reads is taken from its own pristine execution (exact), not from its source text."""
+    k = op_key(op)
+    if mutated:
+        uses = (table.get(k) or {}).get("heap", ())
+        hit = sorted(x for x in mutated if x in uses)
+        if hit:
+            return k + "@" + hit[0]
+    return k
+
+
 # ---------------------------------------------------------------------------------------------
 # heap
 # ---------------------------------------------------------------------------------------------
 class Heap:
-    def __init__(self):
+    def __init__(self, premutate=()):
         self.objs = {}
         self.touched = {}
+        self.premutate = set(premutate)  # pristine executions of a "template after the caller changed X" variant
+        self.caller_mutated = set()
+
+    def mutate(self, name):
+        """The caller changes its own object ``name`` in place (op '@mutate')."""
+        cat = _cat()
+        if name not in self.objs:
+            fn = cat.HEAP[name]
+            self.objs[name] = fn(self) if fn.__code__.co_argcount else fn()
+        cat.MUTATIONS[name](self.objs[name])
+        self.caller_mutated.add(name)
+        self.touched.pop(name, None)
 
     def begin_op(self):
         self.touched = {}
@@ -78,6 +103,9 @@ class Heap:
         if name not in self.objs:
             fn = cat.HEAP[name]
             self.objs[name] = fn(self) if fn.__code__.co_argcount else fn()
+            if name in self.premutate:
+                cat.MUTATIONS[name](self.objs[name])
+                self.caller_mutated.add(name)
         obj = self.objs[name]
         if name not in self.touched:
             self.touched[name] = snap(obj)
@@ -243,16 +271,17 @@ for _fam, _groups in {
         FAMILY[_g] = _fam
 
 
-def same_group_pairs():
+def same_group_pairs(tier="thorough"):
     ops = _cat().OPS
-    names = sorted(ops)
+    names = sorted(n for n in ops if tier == "thorough" or not ops[n].huge)
     return [(a, b) for a in names for b in names if ops[a].group == ops[b].group]
 
 
-def generate(seed, tier, index=0):
+def generate(seed, tier, index=0, batch_seed=None):
     rng = random.Random(seed)
     ops = _cat().OPS
-    names = sorted(ops)
+    active_targets = set(mutation_targets(batch_seed, tier)) if batch_seed is not None else set(_cat().MUTATIONS)
+    names = sorted(n for n in ops if tier == "thorough" or not ops[n].huge)
     groups = sorted(set(o.group for o in ops.values()))
     enabled = [g for g in groups if rng.random() < rng.choice([0.4, 0.7, 1.0])] or [rng.choice(groups)]
     faults_on = rng.random() < 0.6
@@ -287,8 +316,28 @@ def generate(seed, tier, index=0):
             out.append(v)
         sw = {"kind": "interrupt_sweep", "slot": slot, "faults": ["async_interrupt"]}
         return {"property": PROP, "seed": seed, "tier": tier, "swarm": sw, "ops": out, "sched": sched}
+    if index % 5 == 2:
+        # caller-mutation sweep: one run in five walks through the (object X, template T that reads X) pairs in a fixed rotation:
+        # T ; the caller changes X ; T again (plus the directed probes)
+        uses = _cat().USES
+        xt = [(x, n) for x in sorted(_cat().MUTATIONS) for n in names if x in uses.get(n, ()) and not ops[n].slow]
+        slot = index // 5 + (batch_seed or 0)
+        out = []
+        x, n = xt[(slot * 7919) % len(xt)]
+        o = {"op": n}
+        if ops[n].rand:
+            o["rng_seed"] = rng.choice(RAND_SEEDS)
+        out += [dict(o), {"op": "@mutate", "target": x}, dict(o)]
+        others = [m for m in names if x in uses.get(m, ()) and not ops[m].slow]
+        for _ in range(2):
+            v = {"op": rng.choice(others)}
+            if ops[v["op"]].rand:
+                v["rng_seed"] = rng.choice(RAND_SEEDS)
+            out.insert(rng.choice([0, len(out)]), v)
+        sw = {"kind": "caller_mutation_sweep", "target": x, "template": n, "faults": []}
+        return {"property": PROP, "seed": seed, "tier": tier, "swarm": sw, "ops": out, "sched": sched}
     seq = []
-    pairs = same_group_pairs()
+    pairs = same_group_pairs(tier)
     if tier == "thorough" and index < len(pairs):
         seq.extend(pairs[index])
         sw["forced_pair"] = list(pairs[index])
@@ -326,9 +375,25 @@ def generate(seed, tier, index=0):
             seq.insert(rng.randrange(max(1, len(seq) - 1)), rng.choice(carriers[kind]))
     if rng.random() < 0.3:
         rng.shuffle(seq)
+    # the caller changes one of its own objects between two calls that read it (stale caches keyed by identity or by part of the key)
+    mut_plan = None
+    if rng.random() < 0.55:
+        uses = _cat().USES
+        cands = [(i, x) for i, n in enumerate(seq) for x in sorted(uses.get(n, ())) if x in active_targets]
+        if cands:
+            i, x = rng.choice(cands)
+            a = seq[i]
+            same = [m for m in names if x in uses.get(m, ()) and ops[m].group == ops[a].group and not ops[m].slow] or [a]
+            b = a if rng.random() < 0.4 else rng.choice(same)
+            seq[i + 1:i + 1] = ["@mutate:" + x, b]
+            mut_plan = x
+            sw["caller_mutation"] = x
     out = []
     nfaults = 0
     for n in seq:
+        if n.startswith("@mutate:"):
+            out.append({"op": "@mutate", "target": n.split(":", 1)[1]})
+            continue
         spec = ops[n]
         o = {"op": n}
         if spec.rand:
@@ -399,13 +464,49 @@ def execute(trace, ctx=None):
         step += 1
         op = ops_list[step]
         name = op["op"]
+        if name == "@mutate":
+            tgt = op["target"]
+            if tgt in (ctx or {}).get("mutation_targets", ()) and not heap.caller_mutated:
+                heap.mutate(tgt)
+                stats["caller_mutations"] += 1
+                # values handed back earlier that ARE this object (e.g. an input returned unchanged) change with it: the caller did that
+                retained = [(a, b, v, snap(v)) for (a, b, v, _) in retained]
+                shape.append(["@mutate", tgt, None, False, "mutate", None])
+                log.append(["@mutate", tgt])
+                if dynamic:
+                    # the exact victims of a cache keyed by identity or by part of the key: every template this run already
+                    # executed that read the object is executed again, now on the changed object
+                    again, seen_k = [], set()
+                    for prev in ops_list[:step]:
+                        if prev["op"] == "@mutate" or prev.get("fault"):
+                            continue
+                        pk = op_key(prev)
+                        if pk in seen_k or tgt not in (table.get(pk) or {}).get("heap", ()):
+                            continue
+                        seen_k.add(pk)
+                        w = {"op": prev["op"], "probe": True}
+                        if prev.get("rng_seed") is not None:
+                            w["rng_seed"] = prev["rng_seed"]
+                        again.append(w)
+                    if again:
+                        again = again[::-1][:6]  # most recent reader first: a single-entry cache still holds ITS entry
+                        ops_list[step + 1:step + 1] = again
+                        stats["directed_probes_inserted"] += len(again)
+            else:
+                stats["caller_mutations_skipped"] += 1
+            continue
         spec = ops.get(name)
         if spec is None:
             raise HarnessError("unknown op template %r" % name)
-        key = op_key(op)
+        key = table_key(op, heap.caller_mutated, table)
         ref = table.get(key)
         if ref is None:
+            if op.get("probe"):  # a directed probe whose reference is not in the table (replay of a partial table): skip it
+                stats["probes_skipped_no_reference"] += 1
+                continue
             raise HarnessError("no pristine outcome for %r in the context table" % key)
+        if "@" in key:
+            stats["ops_after_caller_mutation"] += 1
         if ref.get("unstable"):
             violation = {"oracle": "not_reproducible", "op": name, "step": step,
                          "detail": "%s executed alone in two pristine processes%s gave different results: %s" % (
@@ -625,26 +726,32 @@ def _brief(out):
 # ---------------------------------------------------------------------------------------------
 def run_extra(job, ctx):
     if job["kind"] == "pristine":
-        return pristine_outcome(job["op"], job.get("rng_seed"))
+        return pristine_outcome(job["op"], job.get("rng_seed"), job.get("mutated"), traced=(job.get("rep") == 1))
     raise HarnessError("unknown job kind %r" % job["kind"])
 
 
-def pristine_outcome(name, rng_seed):
+def pristine_outcome(name, rng_seed, mutated=None, traced=False):
+    """One template alone in this (pristine) process.  The second pristine process of a key runs it under the counting line
+    tracer: its outcome is the reproducibility witness, and it yields the op's length N (for fault placement), the pyrepseq
+    lines it executes and the heap objects it reads."""
     spec = _cat().OPS[name]
     CTL.configure({"policy": "fifo"})
-    out = run_op(spec, Heap(), rng_seed, cb=spec.cb)
-    # second execution (no longer pristine; used only to measure the op's length for fault placement)
+    pre = (mutated,) if mutated else ()
+    if not traced:
+        return {"outcome": run_op(spec, Heap(premutate=pre), rng_seed, cb=spec.cb)}
     lines = set()
-    counter = LineInterrupt(None, record=lines)
-    h2 = Heap()
-    run_op(spec, h2, rng_seed, cb=spec.cb, fault_ctx=counter)
-    return {"outcome": out, "N": counter.count, "lines": sorted(lines), "heap": sorted(h2.touched)}
+    counter = LineInterrupt(None, record=lines, max_count=30000)  # (interrupts land within the first 30000 line events)
+    h = Heap(premutate=pre)
+    out = run_op(spec, h, rng_seed, cb=spec.cb, fault_ctx=counter)
+    return {"outcome": out, "N": counter.count, "lines": sorted(lines), "heap": sorted(h.touched)}
 
 
-def all_keys():
+def all_keys(tier="thorough"):
     ops = _cat().OPS
     keys = []
     for n in sorted(ops):
+        if ops[n].huge and tier != "thorough":
+            continue
         if ops[n].rand:
             for s in RAND_SEEDS:
                 keys.append({"op": n, "rng_seed": s})
@@ -654,41 +761,43 @@ def all_keys():
 
 
 def build_table(farm, keys, harness_errors, full=True, salt=0):
-    """Every key once in its own pristine child; a second time (reproducibility between two pristine processes, the
-    not_reproducible oracle) for every randomised key, and for all keys when ``full`` - otherwise for a quarter of the
-    deterministic keys, rotating with the batch seed."""
-    import zlib
-
+    """Every key alone in its own pristine child, twice: once plain and once under the counting tracer (in a second pristine
+    process).  The two outcomes must agree - the not_reproducible oracle; 'after the caller changed X' variants run once."""
     from .canon import close
 
-    ops = _cat().OPS
     jobs = []
     for k in keys:
-        twice = full or ops[k["op"]].rand or zlib.crc32(("%s/%d" % (k["op"], salt)).encode()) % 4 == 0
-        for rep in ((0, 1) if twice else (0,)):
+        if k.get("mutated"):
+            jobs.append({"kind": "pristine", "op": k["op"], "rng_seed": k.get("rng_seed"), "mutated": k["mutated"], "rep": 0})
+            continue
+        for rep in (0, 1):
             jobs.append({"kind": "pristine", "op": k["op"], "rng_seed": k.get("rng_seed"), "rep": rep})
     got = {}
     for job, res in farm.run(jobs, RUN_TIMEOUT):
-        key = op_key(job)
+        key = op_key(job) + (("@" + job["mutated"]) if job.get("mutated") else "")
         if "harness_error" in res:
             harness_errors.append({"error": "pristine execution of %s failed: %s" % (key, res["harness_error"]), "tb": res.get("tb", "")[-800:]})
             continue
-        got.setdefault(key, []).append(res)
+        got.setdefault(key, {})[job["rep"]] = res
     table = {}
     for key, rs in sorted(got.items()):
-        if len(rs) == 2:
-            a, b = rs[0]["outcome"], rs[1]["outcome"]
-            d = None
-            if a[0] != b[0] or (a[0] == "raise" and a[1] != b[1]):
-                d = "%r vs %r" % (_brief(a), _brief(b))
-            elif a[0] == "value":
-                d = close(a[1], b[1])
-            if d:
-                # the same call, alone in two pristine processes (same seeds), gave different results: that is the
-                # property's last clause failing by itself; reported through execute() so that it is replayable
-                table[key] = dict(rs[0], unstable=d)
-                continue
-        table[key] = rs[0]
+        if "@" in key:
+            table[key] = dict(rs[0], N=1, heap=[])
+            continue
+        if 0 not in rs or 1 not in rs:
+            continue
+        entry = dict(rs[1], outcome=rs[0]["outcome"])
+        a, b = rs[0]["outcome"], rs[1]["outcome"]
+        d = None
+        if a[0] != b[0] or (a[0] == "raise" and a[1] != b[1]):
+            d = "%r vs %r" % (_brief(a), _brief(b))
+        elif a[0] == "value":
+            d = close(a[1], b[1])
+        if d:
+            # the same call, alone in two pristine processes (same seeds), gave different results: that is the
+            # property's last clause failing by itself; reported through execute() so that it is replayable
+            entry["unstable"] = d
+        table[key] = entry
     return table
 
 
@@ -728,8 +837,34 @@ def executable_lines():
     return out
 
 
+def mutation_targets(batch_seed, tier):
+    return sorted(_cat().MUTATIONS)
+
+
+def variant_keys(targets, table):
+    """(template, changed object) for every template whose pristine execution read that object."""
+    cat = _cat()
+    out = []
+    for key in sorted(table):
+        if "@" in key:
+            continue
+        n, _, sd = key.partition("#")
+        if n not in cat.OPS:
+            continue
+        for x in sorted(targets):
+            if x in table[key].get("heap", ()):
+                k = {"op": n, "mutated": x}
+                if sd:
+                    k["rng_seed"] = int(sd)
+                out.append(k)
+    return out
+
+
 def prepare(farm, batch_seed, tier, cfg, harness_errors):
-    table = build_table(farm, all_keys(), harness_errors, full=(tier == "thorough"), salt=batch_seed)
+    targets = mutation_targets(batch_seed, tier)
+    table = build_table(farm, all_keys(tier), harness_errors, full=(tier == "thorough"), salt=batch_seed)
+    table.update(build_table(farm, variant_keys(targets, table), harness_errors))
+    PREP_INFO["caller_mutation_targets"] = targets
     covered = set()
     for v in table.values():
         for fl in v.pop("lines", []):
@@ -742,25 +877,29 @@ def prepare(farm, batch_seed, tier, cfg, harness_errors):
         per[f][0] += 1
     PREP_INFO["catalogue_line_reach"] = {"function_body_lines_executed": len(covered & ex), "function_body_lines_total": len(ex),
                                          "per_file": {f: "%d/%d" % tuple(v) for f, v in sorted(per.items())}}
-    ctx = {"pristine": table}
+    ctx = {"pristine": table, "mutation_targets": targets}
     if cfg.get("cold_check"):
-        cold_check(table, harness_errors)
+        cold_check({k: v for k, v in table.items() if "@" not in k}, harness_errors)
     return ctx
 
 
 def prepare_replay(farm, trace, errs):
     seen, keys = set(), []
+    targets = [op["target"] for op in trace["ops"] if op["op"] == "@mutate"]
     for op in trace["ops"]:
+        if op["op"] == "@mutate":
+            continue
         k = op_key(op)
         if k not in seen:
             seen.add(k)
             keys.append({"op": op["op"], "rng_seed": op.get("rng_seed")})
     table = build_table(farm, keys, errs)
+    table.update(build_table(farm, variant_keys(targets, table), errs))
     for v in table.values():
         v.pop("lines", None)
     if errs:
         raise HarnessError("pristine table for replay failed: %r" % errs[:2])
-    return {"pristine": table}
+    return {"pristine": table, "mutation_targets": targets}
 
 
 def cold_check(table, harness_errors, sample=None):
@@ -863,6 +1002,11 @@ def candidates(trace):
 def signature(trace, v):
     step = min(v.get("step", 0), len(trace["ops"]) - 1)
     victim = trace["ops"][step]["op"]
-    before = [o["op"] for o in trace["ops"][:step]]
+    before = [o["op"] if o["op"] != "@mutate" else "@mutate:" + o["target"] for o in trace["ops"][:step]]
     faults = sorted(set(o["fault"]["kind"] for o in trace["ops"] if o.get("fault")))
     return "/".join([PROP, v["oracle"], victim, "after:" + (",".join(before[-2:]) or "nothing"), "faults:" + (",".join(faults) or "none")])
+
+
+# Import the catalogue in the vcheck process, before the zygotes are forked: building 900 templates (pairwise covering
+# arrays included) takes ~0.2 s, which every job child would otherwise pay again.
+_cat()
